@@ -27,13 +27,14 @@ ImportsSecond ==
   { LetDiv0("zb"), LetTyErr("zb"), ParseErr, Use("ma"), Use("mz"), Use("md"), Expr("mc_x"), UnitDef("ma_x"), LetAns }
 SmallFirst ==
   { Let("za", 1), LetRef("zb", "za"), Fn("za", 2), FnCall("zb", "za"), Expr("za"), Call("zb"), AnsE,
-    UnitDef("zb"), PrintS("za"), LetDiv0("za"), LetTyErr("zb"), Use("mb"), Use("mf"), Use("mz"), QExpr, AnsVal }
-SmallSecond == { LetDiv0("zb"), Expr("za"), ParseErr, Use("ma") }
+    UnitDef("zb"), PrintS("za"), LetDiv0("za"), LetTyErr("zb"), Use("mb"), Use("mf"), Use("mz"), QExpr, AnsVal,
+    UnitDer("zc"), UnitUse("zc") }
+SmallSecond == { LetDiv0("zb"), Expr("za"), ParseErr, Use("ma"), UnitUse("zc") }
 
 OkFirst ==
   { Let("za", 1), Let("za", 2), LetRef("za", "za"), LetRef("zc", "za"), Fn("zb", 1), Fn("zb", 2), FnRef("zb", "za"),
     FnCall("zc", "zb"), Expr("za"), Call("zb"), AnsE, PrintS("za"), UnitDef("zc"), Use("mb"), Use("mc"),
-    DimDef("za"), StructDef, AssertEq("za", 1), QExpr, AnsVal }
+    DimDef("za"), StructDef, AssertEq("za", 1), QExpr, AnsVal, UnitDer("zc"), UnitUse("zc") }
 
 Firsts  == CASE Alphabet = "okonly" -> OkFirst []  Alphabet = "names" -> NamesFirst [] Alphabet = "imports" -> ImportsFirst [] OTHER -> SmallFirst
 Seconds == CASE Alphabet = "okonly" -> {} []  Alphabet = "names" -> NamesSecond [] Alphabet = "imports" -> ImportsSecond [] OTHER -> SmallSecond
